@@ -1244,6 +1244,82 @@ def g7fmt(rng, **opts):
                 tags=["g7fmt", buf, "A_plain" if a_plain else "A_tiled", "rank:" + a_rank])
 
 
+def g7mrg(rng, **opts):
+    """metrics specifications with TWO hardware mergers in one Einsum, one per input tensor: Z[m, n] = A[k, m, n] * B[k, m, n] (or a
+    third, unmerged operand), random storage orders and loop order; a merger's init-ranks are the storage order or another order
+    (the compiler then swizzles for free into the init order first), its final-ranks the loop order"""
+    K, M, N = rng.choice([("K", "M", "N"), ("J", "I", "H")])
+    ranks = [K, M, N]
+    names = ["A", "B"] + (["C"] if rng.random() < 0.3 else [])
+    store = {t: rng.sample(ranks, 3) for t in names}
+    decl = {t: list(store[t]) for t in names}
+    decl["Z"] = [M, N]
+    loop = rng.sample(ranks, 3)
+    fs = [("t", t, [V(r) for r in decl[t]]) for t in names]
+    rng.shuffle(fs)
+    e = dict(out="Z", oidx=[V(M), V(N)], terms=[dict(kind="times", factors=fs, sel=None)])
+    locs, binds = [], [{"config": "accel", "prefix": "tmp/Z"}]
+    tags = ["g7mrg"]
+    merged = [t for t in names[:2] if store[t] != loop]
+    if rng.random() < 0.15 and len(merged) == 2:
+        merged = merged[:1]
+    for t in merged:
+        init = list(store[t])
+        if rng.random() < 0.6:
+            init = rng.sample(ranks, 3)
+            if init == loop:
+                init = list(store[t])
+        tags.append("init_is_storage" if init == store[t] else "init_not_storage")
+        nm = "Merger" + t
+        locs.append({"name": nm, "class": "Merger", "attributes": {"inputs": rng.choice([2, 16, "inf"]), "comparator_radix": rng.choice([2, 16]), "outputs": 1, "order": rng.choice(["fifo", "opt"]), "reduce": False}})
+        binds.append({"component": nm, "bindings": [{"tensor": t, "init-ranks": init, "final-ranks": list(loop)}]})
+    tags.append("mergers%d" % len(merged))
+    rng.shuffle(locs)
+    if rng.random() < 0.5:
+        binds[1:] = list(reversed(binds[1:]))
+    arch = {"accel": [{"name": "chip", "attributes": {"clock_frequency": 1000}, "local": locs}]}
+    fmt = {"Z": {"default": {"rank-order": [M, N], M: {"format": "C", "pbits": 32}, N: {"format": "C", "cbits": 32, "pbits": 64}}}}
+    for t in names:
+        f = {"rank-order": list(loop)}
+        for r in loop:
+            f[r] = {"format": "C", "cbits": 32, "pbits": 64}
+        fmt[t] = {"default": f}
+    return dict(decl=decl, eins=[e], mapping={"loop-order": {"Z": loop}, "spacetime": {"Z": {"space": [], "time": list(loop)}}},
+                architecture=arch, bindings={"Z": binds}, format=fmt, ext={K: rng.randint(1, 4), M: rng.randint(1, 3), N: rng.randint(1, 3)}, env={}, tags=tags)
+
+
+def g5flat(rng):
+    """cascade whose INTERMEDIATE is produced under a flatten() of ranks that are adjacent and in order in its layout (so the
+    flattened and the final tensor spell the same variable name), then read by one or two later Einsums"""
+    three = rng.random() < 0.5
+    M, N, O = rng.choice([("M", "N", "O"), ("I", "J", "H")])
+    ranks = [M, N, O] if three else [M, N]
+    flat = ranks if (not three or rng.random() < 0.4) else rng.choice([ranks[:2], ranks[1:]])
+    decl = {"A": list(ranks), "B": list(ranks), "T": list(ranks)}
+    fs = [("t", "A", [V(r) for r in ranks]), ("t", "B", [V(r) for r in ranks])]
+    if rng.random() < 0.4:
+        fs = fs[:1]
+    e1 = dict(out="T", oidx=[V(r) for r in ranks], terms=[dict(kind="times", factors=fs, sel=None)])
+    flatname = "".join(flat)
+    loop1 = [flatname if r == flat[0] else r for r in ranks if r == flat[0] or r not in flat]
+    mapping = {"partitioning": {"T": {"(%s)" % ", ".join(flat): ["flatten()"]}}, "loop-order": {"T": loop1}}
+    keep = rng.sample(ranks, rng.randint(1, len(ranks) - 1))
+    keep = [r for r in ranks if r in keep]
+    decl["Z"] = list(keep)
+    fz = [("t", "T", [V(r) for r in ranks])]
+    if rng.random() < 0.5:
+        decl["C"] = [ranks[-1]]
+        fz.insert(rng.randint(0, 1), ("t", "C", [V(ranks[-1])]))
+    eins = [e1, dict(out="Z", oidx=[V(r) for r in keep], terms=[dict(kind="times", factors=fz, sel=None)])]
+    tags = ["g5flat", "reads_intermediate", "flat%d" % len(flat)]
+    if rng.random() < 0.4:
+        decl["Y"] = [ranks[0]]
+        eins.append(dict(out="Y", oidx=[V(ranks[0])], terms=[dict(kind="times", factors=[("t", "T", [V(r) for r in ranks])], sel=None)]))
+        tags.append("two_readers")
+    ext = {r: rng.randint(1, 4) for r in ranks}
+    return dict(decl=decl, eins=eins, mapping=mapping, ext=ext, env={}, tags=tags)
+
+
 def g5(rng):
     """cascade of 2-4 Einsums; later Einsums read earlier results"""
     n = rng.randint(2, 4)
